@@ -1,4 +1,4 @@
-import LP.Model.Eval
+import LP.Model.Feasible
 import LP.Driver.Value
 namespace LP.Driver
 open LP LP.QPoly
@@ -83,5 +83,113 @@ def checkEval (op : String) (args res : List String) : Verdict :=
       | none, some _, w => w
     | _, _, _ => .skip "parse"
   | _, _, _ => .skip s!"unknown ev op {op}"
+
+/-! ### C11 / C12 -/
+
+def yVar : Nat := 3
+
+/-- `[V]` or `(V~V]` -/
+def pVInt? (s : String) : Option (Val × Bool × Val × Bool) :=
+  if s.length < 3 then none else
+  let first := s.front
+  let last := s.back
+  let inner := ((s.drop 1).toString.dropEnd 1).toString
+  match inner.splitOn "~" with
+  | [p] => if first = '[' ∧ last = ']' then (pVal? p).map (fun v => (v, false, v, false)) else none
+  | [a, b] => do
+      let a ← pVal? a
+      let b ← pVal? b
+      let ao ← if first = '(' then some true else if first = '[' then some false else none
+      let bo ← if last = ')' then some true else if last = ']' then some false else none
+      some (a, ao, b, bo)
+  | _ => none
+
+def pVSet? (s : String) : Option (List (Val × Bool × Val × Bool)) :=
+  if s = "{}" then some [] else
+  if !(s.startsWith "{" && s.endsWith "}") then none else
+  ((((s.drop 1).toString.dropEnd 1).toString).splitOn ";").mapM pVInt?
+
+/-- does the C end point denote the model end point? -/
+def epMatches (rs : List Alg) (e : Eval.EPt) (v : Val) : Option Bool :=
+  match e, v with
+  | .ninf, .minf => some true
+  | .pinf, .pinf => some true
+  | .root i, v =>
+    match rs[i]?, v.toZ? with
+    | some r, some z => (Alg.cmp r z.a).map (· == 0)
+    | _, _ => some false
+  | _, _ => some false
+
+def setMatches (rs : List Alg) (want : List Eval.SInt) (got : List (Val × Bool × Val × Bool)) : Option Bool :=
+  if want.length ≠ got.length then some false else
+  ((want.zip got).mapM (fun (p : Eval.SInt × (Val × Bool × Val × Bool)) =>
+    let w := p.1; let g := p.2
+    match epMatches rs w.lo g.1, epMatches rs w.hi g.2.2.1 with
+    | some a, some b => some (a && b && (w.loOpen == g.2.1) && (w.hiOpen == g.2.2.2))
+    | _, _ => none)).map (fun (l : List Bool) => l.all id)
+
+def showSInt (i : Eval.SInt) : String :=
+  let e : Eval.EPt → String := fun e => match e with | .ninf => "-inf" | .pinf => "+inf" | .root k => s!"r{k}"
+  s!"{if i.loOpen then "(" else "["}{e i.lo},{e i.hi}{if i.hiOpen then ")" else "]"}"
+
+def rootsCap : Nat := 8
+
+def checkEval2 (op : String) (args res : List String) : Verdict :=
+  match op, args, res with
+  | "roots", [ps, as], ns :: vs =>
+    match pPolyRaw? ps, pAsg? as, pNat? ns, vs.mapM pVal? with
+    | some raw, some av, some n, some got =>
+      match asgOperandsOk av, asgToZ av with
+      | some m, _ => .viol "state/operand-repr" m
+      | none, none => .skip "infinite value in assignment"
+      | none, some a =>
+        if n ≠ got.length then .viol "ev/roots" "size does not match the list" else
+        match got.findSome? (fun v => match valOk v with | .viol c m => some (Verdict.viol c m) | _ => none) with
+        | some v => v
+        | none =>
+        let p := MPoly.normalize none raw
+        match Eval.rootsUnder p yVar a rootsCap with
+        | none => .skip "roots inconclusive (size cap / fuel / degenerate eliminant)"
+        | some want =>
+          let tag := s!"ev/roots/{asgKinds av}/{want.length}"
+          if want.length ≠ n then .viol tag s!"{n} roots returned, exact number {want.length}" else
+          match (want.zip got).mapM (fun p => match p.2.toZ? with | some z => (Alg.cmp p.1 z.a).map (· == 0) | none => some false) with
+          | none => .skip "cmp out of fuel"
+          | some l => if l.all id then .ok tag else .viol tag "a returned root is not the corresponding exact root"
+    | _, _, _, _ => .skip "parse"
+  | "fs", [ps, cs, ng, as], [ss] =>
+    match pPolyRaw? ps, pNat? cs, pNat? ng, pAsg? as, pVSet? ss with
+    | some raw, some c, some ng, some av, some got =>
+      match asgToZ av with
+      | none => .skip "infinite value in assignment"
+      | some a =>
+        let p := MPoly.normalize none raw
+        match Eval.feasible p yVar a c (ng ≠ 0) rootsCap with
+        | none => .skip "feasible set inconclusive (size cap / fuel)"
+        | some (rs, want) =>
+          let tag := s!"ev/fs/{c}{if ng ≠ 0 then "n" else ""}/{asgKinds av}/r{rs.length}/i{want.length}"
+          match setMatches rs want got with
+          | none => .skip "cmp out of fuel"
+          | some true => .ok tag
+          | some false => .viol s!"ev/fs/{c}{if ng ≠ 0 then "n" else ""}" s!"feasible set differs: exact {want.map showSInt} over {rs.length} roots"
+    | _, _, _, _, _ => .skip "parse"
+  | "rfs", [ps, ks, cs, ng, as], [ss] =>
+    match pPolyRaw? ps, pNat? ks, pNat? cs, pNat? ng, pAsg? as, pVSet? ss with
+    | some raw, some k, some c, some ng, some av, some got =>
+      match asgToZ av with
+      | none => .skip "infinite value in assignment"
+      | some a =>
+        let p := MPoly.normalize none raw
+        match Eval.rootsUnder p yVar a rootsCap with
+        | none => .skip "roots inconclusive (size cap / fuel)"
+        | some rs =>
+          let want := Eval.rootFeasible rs.length k c (ng ≠ 0)
+          let tag := s!"ev/rfs/{c}{if ng ≠ 0 then "n" else ""}/{if k < rs.length then "has-root" else "fewer-roots"}"
+          match setMatches rs want got with
+          | none => .skip "cmp out of fuel"
+          | some true => .ok tag
+          | some false => .viol s!"ev/rfs/{c}" s!"root-constraint set differs: exact {want.map showSInt} over {rs.length} roots"
+    | _, _, _, _, _, _ => .skip "parse"
+  | _, _, _ => checkEval op args res
 
 end LP.Driver
